@@ -259,6 +259,20 @@ mut("C18", "ring-one-slot-short", HI, "\t\t\tbuf: make([]uint64, buflen+1),\n", 
 mut("C18", "backup-ring-larger-than-mask", HI, "\t\tbakbuf: make([]uint64, buflen+1),\n", "\t\tbakbuf: make([]uint64, 2*(buflen+1)),\n", "R18.6", "slots above the mask are never written but sorted into the percentiles once kept >= len")
 var("C18", "observer-slot-in-two-steps", HI, "idx := (atomic.AddUint64(&h.dat.kept, 1) - 1) & buflen", "n := atomic.AddUint64(&h.dat.kept, 1)\n\tidx := (n - 1) & buflen")
 
+# --- round 5: R7.8/R11.4 read-together variant, R19.6-R19.8, R10.8
+_TXT_OLD = "\tdataBuf := make([]byte, length)\n\tn, err := io.ReadAtLeast(r, dataBuf, int(length))\n\tmetrics.IncCounterBy(common.MetricBytesReadRemote, uint64(n))\n\tif err != nil {\n\t\treturn common.SetRequest{}, reqType, start, common.ErrInternal\n\t}\n\n\t// Consume the last two bytes \"\\r\\n\"\n\tr.ReadString(byte('\\n'))\n\tmetrics.IncCounterBy(common.MetricBytesReadRemote, 2)\n"
+_TXT_NEW = "\tdataBuf := make([]byte, length+2)\n\tn, err := io.ReadFull(r, dataBuf)\n\tmetrics.IncCounterBy(common.MetricBytesReadRemote, uint64(n))\n\tif err != nil {\n\t\treturn common.SetRequest{}, reqType, start, common.ErrInternal\n\t}\n\tdataBuf = dataBuf[:length]\n"
+var("C07", "text-data-and-terminator-read-in-one-full-read", TP, _TXT_OLD, _TXT_NEW, "data block and CRLF read together with a full read: same bytes consumed")
+var("C11", "text-data-and-terminator-read-in-one-full-read", TP, _TXT_OLD, _TXT_NEW)
+mut("C07", "text-data-and-terminator-read-with-short-minimum", TP, _TXT_OLD, _TXT_NEW.replace("io.ReadFull(r, dataBuf)", "io.ReadAtLeast(r, dataBuf, int(length))"), "R7.6", "seed C07G: the terminator may be left in the stream")
+KET = "handlers/memcached/cluster/ketama.go"
+mut("C19", "unreachable-node-skipped", CLH, "\t\t\treturn emptyClusterHandler(), err\n\t\t}\n\t\tnodes[ix]", "\t\t\tcontinue\n\t\t}\n\t\tnodes[ix]", "R19.6", "seed C19F: a connection built while a node is down routes over a smaller ring")
+mut("C19", "replica-count-in-float64", KET, "limit := int(float32(float64(pct) * 40.0 * float64(numbuckets)))", "limit := int(float64(pct) * 40.0 * float64(numbuckets))", "R19.7", "seeds C19A/C/G: 39 replicas at 25, 29, 31 ... nodes")
+var("C19", "replica-count-in-integer-arithmetic", KET, "limit := int(float32(float64(pct) * 40.0 * float64(numbuckets)))", "limit := int(uint64(b.Weight()) * 40 * uint64(numbuckets) / uint64(totalweight))\n\t\t_ = pct", "exact replica count: R19.7 has nothing to report (the known finding K3 disappears)")
+var("C19", "replica-count-rounded", KET, "limit := int(float32(float64(pct) * 40.0 * float64(numbuckets)))", "limit := int(math.Round(float64(pct) * 40.0 * float64(numbuckets)))", "rounded to nearest")
+mut("C19", "listing-position-stored-in-point", KET, "\t\t\t\t\tbucket: buckets[i],\n", "\t\t\t\t\tbucket: buckets[i],\n\t\t\t\t\tidx:    i,\n", "R19.8", "does not compile unless the field exists: skipped then")
+mut("C10", "reset-onto-second-unflushed-writer", CH, "\th.rw.Writer.Reset(h.conn)\n", "\th.rw.Writer.Reset(bufio.NewWriter(h.conn))\n", "R10.8", "defect F20 again")
+
 for prop, ms in sorted(M.items()):
     json.dump(ms, open(os.path.join(ROOT, "rendlint", "mutants", prop + ".json"), "w"), indent=1)
     print(prop, len([m for m in ms if m["kind"] == "mutant"]), "mutants,", len([m for m in ms if m["kind"] == "variant"]), "variants")
